@@ -117,6 +117,31 @@ def run_job(job):
                 V("Diffie-Hellman output differs from the model", "a %s pk(b) %s: got %s want %s" % (a.hex(), pks[b].hex(), r1.g_dh, want.hex()))
             if bx(r1.g_dh) == bytes(len(want)):
                 V("Diffie-Hellman output all-zero for valid keys", a.hex())
+        # Diffie-Hellman with arbitrary VALID peer keys: for Curve25519 random u-coordinates (curve and twist) and honest keys
+        # shifted by small-order points; for the other groups random multiples. Must equal the model's result.
+        foreign = []
+        if sz.ke == "x25519":
+            for _ in range(20 if tier == "quick" else 200):
+                u = bytes(rnd.randrange(256) for _ in range(32))
+                if ke.valid_pk(u):
+                    foreign.append(u)
+            for sk_, pk_ in list(pks.items())[:4]:
+                foreign += c25519.x_torsion_variants(pk_)
+            foreign += [bytes.fromhex("e5210f12786811d3f4b7959d0538ae2c31dbe7106fc03c3efc4cd549c715a493"),
+                        bytes.fromhex("e6db6867583030db3594c1a424b15f7c726624ec26b3353b10a903a6d0ab1c4c")]
+        else:
+            for _ in range(6 if tier == "quick" else 40):
+                foreign.append(ke.pk_from_sk(ke.G.encode_scalar(rnd.randrange(1, ke.G.order))))
+        for i_, pkf in enumerate(foreign):
+            a = ks[i_ % len(ks)]
+            r1 = s.cmd("k_dh", sk=a, pk=pkf)
+            evals += 1
+            stats["dh_pairs"] += 1
+            want = ke.dh(a, pkf)
+            if not isinstance(r1.get("g_dh"), str) or not isinstance(r1.get("sk_dh"), str):
+                V("Diffie-Hellman failed on a valid peer key", "sk %s pk %s: %s" % (a.hex(), pkf.hex(), dict((k, r1.get(k)) for k in ("g_dh", "sk_dh"))))
+            elif bx(r1.g_dh) != want or bx(r1.sk_dh) != want:
+                V("Diffie-Hellman output differs from the model", "sk %s peer key %s: got %s / %s want %s" % (a.hex(), pkf.hex(), r1.g_dh, r1.sk_dh, want.hex()))
         if keys:
             samples.append({"suite": su, "flavour": fl, "sk": keys[0][1].hex(), "pk": pks.get(keys[0][1], b"").hex(), "dh_pairs": len(pairs)})
         # seeded derivation
